@@ -27,4 +27,7 @@ def suites(tier):
         cfg = dict(tail=tail, initial=4, steps=3 if q else 4, symbolic=0 if q else 1)
         ljobs.append(dict(id=jid("loop", cfg), func="zzH_C08_loop", cfg=cfg, go_inline=True, coroutine_funcs=["Loop"]))
     s2 = src_suite("loop", ljobs, chunkSize=5)
-    return [s1, s2]
+    # one full chunk of 10 (queryCacheMax = 2): cached per-chunk lists with more than one match
+    cfg = dict(tail=0, initial=10, steps=3 if q else 4, symbolic=0)
+    s3 = src_suite("loop10", [dict(id=jid("loop10", cfg), func="zzH_C08_loop", cfg=cfg, go_inline=True, coroutine_funcs=["Loop"])], chunkSize=10)
+    return [s1, s2, s3]
